@@ -159,6 +159,8 @@ def handle (toks : List String) : IO Unit := do
     for l in Explore.run alg ((runes.splitOn ",").filterMap String.toNat?) do IO.println l
   | ["certgen", alg, runes] =>
     for l in CertGen.run alg ((runes.splitOn ",").filterMap String.toNat?) do IO.println l
+  | ["paths", alg, runes] =>
+    for l in Explore.runPaths alg ((runes.splitOn ",").filterMap String.toNat?) do IO.println l
   | ["cutgen", alg, runes] =>
     for l in CertGen.runCut alg ((runes.splitOn ",").filterMap String.toNat?) do IO.println l
   | ["spec", alg, h] =>
